@@ -83,6 +83,8 @@ type C05Case struct {
 	// the same whether or not trace logging is enabled is)
 	BadQ    string `json:"bad_q,omitempty"`
 	BadQPos int    `json:"bad_q_pos,omitempty"`
+	// TraceOffNil: trace logging is switched off with TraceLogger(nil) instead of EnableTracing(false)
+	TraceOffNil bool `json:"trace_off_nil,omitempty"`
 }
 
 func (r AccRange) qval() float64 {
@@ -226,6 +228,7 @@ func genC05(t *rapid.T) C05Case {
 	if rapid.IntRange(0, 3).Draw(t, "badq") == 0 {
 		c.BadQ = rapid.SampledFrom(c.Produces).Draw(t, "badqmedia") + ";q=" + rapid.SampledFrom([]string{"1e999", "abc", "-1e999", "0x1p-2", "", "1.0.0", "NaN", "Inf"}).Draw(t, "badqval")
 		c.BadQPos = rapid.IntRange(0, len(c.Accept)).Draw(t, "badqpos")
+		c.TraceOffNil = rapid.Bool().Draw(t, "traceoffnil")
 	}
 	if splitDraw == 0 && len(c.Accept) >= 2 {
 		c.Split = rapid.IntRange(1, len(c.Accept)-1).Draw(t, "splitat")
@@ -421,7 +424,8 @@ func checkC05(c C05Case) (vs []*Violation) {
 		}
 		h := strings.Join(parts, ",")
 		req := model.ReqSpec{Method: "GET", Path: "/x", Headers: []model.H{{K: "Accept", V: h}}}
-		harness.SetTrace(false)
+		harness.SetTrace(true) // a configuration history: tracing was on before it is switched off
+		harness.SetTraceOff(c.TraceOffNil)
 		off := harness.Do(ct, rec, req, c.Via, "traceoff")
 		harness.SetTrace(true)
 		on := harness.Do(ct, rec, req, c.Via, "traceon")
@@ -430,7 +434,11 @@ func checkC05(c C05Case) (vs []*Violation) {
 		b := strconv.Itoa(on.Status) + " " + strings.Join(on.Header["Content-Type"], "|")
 		labels = append(labels, "trace_relation_with_malformed_q")
 		if a != b || off.Panic != on.Panic {
-			vs = append(vs, viol("", "Produces=%v Accept=%q: answered {%s} with trace logging off and {%s} with trace logging on", c.Produces, h, a, b))
+			sig := ""
+			if c.TraceOffNil && strings.Contains(off.Panic, "nil pointer") {
+				sig = "D17"
+			}
+			vs = append(vs, viol(sig, "Produces=%v Accept=%q: answered {%s panic=%q} with trace logging off (TraceLogger(nil)=%v) and {%s panic=%q} with trace logging on", c.Produces, h, a, off.Panic, c.TraceOffNil, b, on.Panic))
 		}
 	}
 	if len(seen) > 1 && len(vs) == 0 {
